@@ -287,6 +287,55 @@ func affixSweep(c *explore.Ctx) {
 	}
 }
 
+// aliasSweep: both operands are views of one buffer (same or overlapping memory, any two lengths).
+func aliasSweep(c *explore.Ctx) {
+	off1 := []int{0, 1, 7, 8, 9}[c.Choose(5)]
+	off2 := []int{0, 1, 7, 8, 9}[c.Choose(5)]
+	pattern := c.Choose(3)
+	buf := arena(160)[3:131]
+	for i := range buf {
+		switch pattern {
+		case 0:
+			buf[i] = 'a'
+		case 1:
+			buf[i] = "aA"[i%2]
+		case 2:
+			buf[i] = 'a' + byte(i%26)
+		}
+	}
+	maxN := maxLen(c, 41, 73)
+	var cases int64
+	var digest uint64
+	for n := 0; n < maxN; n++ {
+		for m := 0; m < maxN; m++ {
+			s := buf[off1 : off1+n : off1+n]
+			p := buf[off2 : off2+m : off2+m]
+			w1, w2, w3 := refEqualFold(s, p), refHasPrefixFold(s, p), refHasSuffixFold(s, p)
+			got := [...]bool{ascii.EqualFold(s, p), ascii.EqualFoldString(str(s), str(p)), ascii.HasPrefixFold(s, p), ascii.HasPrefixFoldString(str(s), str(p)), ascii.HasSuffixFold(s, p), ascii.HasSuffixFoldString(str(s), str(p))}
+			want := [...]bool{w1, w1, w2, w2, w3, w3}
+			cases++
+			var bits uint64
+			for i := range got {
+				if got[i] {
+					bits |= 1 << i
+				}
+				if got[i] != want[i] {
+					name := [...]string{"EqualFold", "EqualFoldString", "HasPrefixFold", "HasPrefixFoldString", "HasSuffixFold", "HasSuffixFoldString"}[i]
+					c.Fail(name+"/aliased", "%s on two views of one buffer (offsets %d and %d, lengths %d and %d, pattern %d) got %v want %v", name, off1, off2, n, m, pattern, got[i], want[i])
+				}
+			}
+			digest += mix(uint64(n)<<48|uint64(m)<<32|uint64(off1)<<8|uint64(off2), bits)
+		}
+	}
+	c.Inner(cases)
+	c.Count("digest", int64(digest))
+	c.Nontrivial(3<<40 | uint64(off1)<<16 | uint64(off2)<<8 | uint64(pattern))
+	c.Outcome(fmt.Sprintf("same-start=%v", off1 == off2))
+	if c.WantSample() {
+		c.Case(map[string]any{"offset_s": off1, "offset_p": off2, "pattern": pattern, "lengths": "all pairs"})
+	}
+}
+
 func singles(c *explore.Ctx) {
 	which := c.Choose(2)
 	var digest uint64
@@ -363,6 +412,7 @@ func Spec() *explore.Spec {
 			{Name: "valid-sweep", Variants: both, ShardDepth: 2, Body: validSweep, Doc: "every (length, alignment 0..31, position, byte value 0..255) single deviation from an all-valid string, 4 fillers"},
 			{Name: "fold-pairs", Variants: both, ShardDepth: 2, Body: foldSweep, Doc: "every ordered pair of ASCII bytes at every position of equal-length operands"},
 			{Name: "affix-lengths", Variants: both, ShardDepth: 2, Body: affixSweep, Doc: "every (len s, len affix) combination with single deviations"},
+			{Name: "aliased-operands", Variants: both, ShardDepth: 2, Body: aliasSweep, Doc: "both operands are views of one buffer: 5 x 5 start offsets x every pair of lengths x 3 contents"},
 			{Name: "singles", Variants: both, Body: singles, Doc: "byte and rune predicates"},
 		},
 		Rule: "exhaustive single-deviation sweeps; a distinct non-trivial case is one (family, length[, filler/affix length]) block, each containing both accepted and rejected inputs",
